@@ -102,6 +102,9 @@ class WRun:
             self._cut_binary()
         else:
             self._cut_ascii()
+        for e in self.problems:
+            # a write whose value the evaluator could not build is missing from the records below
+            W.gap(e.node, f"a write of {WRITERS[(enc, layout)]} is dropped from the trace: {repr(e.value)[:120]}", e.qual)
         # dense layouts: the array whose rows are written and the atom standing for its first row
         self.first = None
         self.flag_min = None
@@ -118,7 +121,9 @@ class WRun:
         # generic column / string symbols
         if self.colhdr is not None and self.colhdr.frames:
             fr = self.colhdr.frames[0]
-            if fr.kind == "for" and is_rat(fr.elems):
+            if fr.kind == "for" and is_rat(getattr(fr, "index", None)):
+                self.col = fr.index
+            elif fr.kind == "for" and is_rat(fr.elems):
                 self.col = fr.elems
         self.str_iter = None
         if self.strhdr is not None:
@@ -128,13 +133,19 @@ class WRun:
                     self.r0, self.r1 = pr
                     self.str_iter = fr.iterable
                     break
+                rows = getattr(fr, "row_elems", None) if fr.kind == "for" else None
+                if rows is not None and len(rows) == 2 and all(is_rat(x) for x in rows):
+                    # the strings are reached through an index: `for k in range(len(table)): start, length = table[k]`
+                    self.r0, self.r1 = rows
+                    self.str_iter = fr.rows_of
+                    break
 
     def regime(self):
         lo, hi = self.rows
         return f"rows in [{lo}, {'...' if hi is None else hi}]"
 
     def _cut_ascii(self):
-        lines, prob = S.lines_of(self.W.emits)
+        lines, prob = S.lines_of(self.W.emits, F.sym("f"))
         self.lines = lines
         self.problems = prob
         nd = [l for l in lines if not l.is_data]
@@ -156,7 +167,7 @@ class WRun:
 
     def _cut_binary(self):
         """records by position and loop depth of the items (not by how the writer groups them into pack calls)"""
-        items, prob = S.items_of(self.W.emits)
+        items, prob = S.items_of(self.W.emits, F.sym("f"))
         self.problems = prob
         self.items = [it for it, _f, _n, _p in items]
         if not items:
